@@ -372,10 +372,50 @@ func (p *Prog) scanAfter(list []ast.Stmt, cur ast.Node, isB func(n ast.Node) boo
 			return n, "", true
 		}
 		if p.canLeave(s) {
+			if p.leavesOnlyAfterB(s, isB) {
+				continue // every leaving path inside s performs B first; keep looking for the fall-through path
+			}
 			return nil, "a path leaves at " + p.Pos(s) + " before the paired update", true
 		}
 	}
 	return nil, "", false
+}
+
+// leavesOnlyAfterB: s is an if statement whose leaving branches each perform B (unconditionally,
+// at the top level of the branch) before they leave.
+func (p *Prog) leavesOnlyAfterB(s ast.Stmt, isB func(n ast.Node) bool) bool {
+	ifs, ok := s.(*ast.IfStmt)
+	if !ok {
+		return false
+	}
+	if ifs.Init != nil && p.canLeave(ifs.Init) {
+		return false
+	}
+	branchOK := func(list []ast.Stmt) bool {
+		for _, in := range list {
+			if p.stmtIsB(in, isB) != nil {
+				return true
+			}
+			if p.canLeave(in) {
+				if !p.leavesOnlyAfterB(in, isB) {
+					return false
+				}
+			}
+		}
+		return true // does not leave at all
+	}
+	if !branchOK(ifs.Body.List) {
+		return false
+	}
+	switch e := ifs.Else.(type) {
+	case nil:
+		return true
+	case *ast.BlockStmt:
+		return branchOK(e.List)
+	case *ast.IfStmt:
+		return !p.canLeave(e) || p.leavesOnlyAfterB(e, isB)
+	}
+	return false
 }
 
 // stmtIsB: statement s unconditionally performs B (as its own statement, the call of an
